@@ -226,6 +226,10 @@ impl<H: Hal, T: Transport> VirtIOConsole<H, T> {
 
     /// Sends one or more bytes to the console.
     pub fn send_bytes(&mut self, buffer: &[u8]) -> Result {
+        if buffer.is_empty() {
+            // The queue doesn't accept empty buffers, and there is nothing to send.
+            return Ok(());
+        }
         self.transmitq
             .add_notify_wait_pop(&[buffer], &mut [], &mut self.transport)?;
         Ok(())
